@@ -122,7 +122,7 @@ def run(rep, tier, seed):
             oks = list(ex.map(lambda ib: conforms(wd, ib[1], "b%d" % ib[0]), enumerate(batches)))
         nbad = 0
         for i, ok in enumerate(oks):
-            if not ok:
+            if not ok and nbad == 0:     # one failing batch is bisected down to single events; the others are only counted
                 for e in find_bad(wd, batches[i], "x%d" % i):
                     nbad += 1
                     rep.violation({"key": "word-w%d-%s-%s" % (e["w"], "acc" if e["acc"] else "rej", "pow2" if e["n"] & (e["n"] - 1) == 0 else "npow2"),
@@ -137,6 +137,7 @@ def run(rep, tier, seed):
             if conforms(wd, [e], "selftest"):
                 raise MachineryError("binding self-test failed: a wrong face was accepted")
             rep.set("binding_selftest", "face of word %d (n=%d) changed -> rejected" % (e["v"], e["n"]))
+        rep.set("rejected_batches", sum(1 for ok in oks if not ok))
         rep.set("trace_words", {"calls": s["calls"], "word_events": len(events), "rejected_words": s["rejected_words"], "batches": len(batches),
                                 "chi_square_informational": s["chi_square"]})
         rep.set("traces_validated_against_impl", len(events))
